@@ -24,12 +24,14 @@ pub struct TxwParams {
     pub gen: GenOpts,
     pub replicas: usize,
     pub stagger_ms: u64,
+    /// stall the pre-use health check now and then (answered late, not never)
+    pub hc_stall: bool,
 }
 
 impl TxwParams {
     pub fn describe(&self) -> String {
         format!(
-            "mode={} pool_size={} clients={} txns={} workers={} abort%={} jitter_us={} replicas={}",
+            "mode={} pool_size={} clients={} txns={} workers={} abort%={} jitter_us={} replicas={} hc_stall={}",
             self.mode,
             self.pool_size,
             self.clients,
@@ -37,7 +39,8 @@ impl TxwParams {
             self.worker_threads,
             self.abort_pct,
             self.jitter_us,
-            self.replicas
+            self.replicas,
+            self.hc_stall
         )
     }
 }
@@ -57,6 +60,10 @@ pub fn build(p: &TxwParams) -> (Cell, Cfg) {
     let (cell, mut cfg) = simple_cell(&roles, p.pool_size, &p.mode);
     cfg.gset("worker_threads", &p.worker_threads.to_string());
     cfg.gset("connect_timeout", &p.connect_timeout_ms.to_string());
+    if p.hc_stall {
+        cfg.gset("healthcheck_delay", "0");
+        cfg.gset("healthcheck_timeout", "80");
+    }
     (cell, cfg)
 }
 
@@ -69,7 +76,32 @@ pub fn run(p: &TxwParams) -> Result<TxwRun, String> {
     }
     cell.start_pgcat(&cfg, &so)
         .map_err(|e| format!("pgcat start: {:?}", e))?;
+    let stop = std::sync::Arc::new(std::sync::atomic::AtomicBool::new(false));
+    let stall_thread = if p.hc_stall {
+        let ctls: Vec<_> = cell.mocks.iter().map(|m| m.ctl.clone()).collect();
+        let stop2 = stop.clone();
+        let seed = p.seed;
+        Some(std::thread::spawn(move || {
+            let mut rng = Rng::new(seed ^ 0x5747);
+            while !stop2.load(std::sync::atomic::Ordering::SeqCst) {
+                sleep_ms(rng.range(20, 120));
+                let c = rng.pick(&ctls).clone();
+                c.hc_hang.store(true, std::sync::atomic::Ordering::SeqCst);
+                sleep_ms(rng.range(120, 300));
+                c.hc_hang.store(false, std::sync::atomic::Ordering::SeqCst);
+            }
+        }))
+    } else {
+        None
+    };
     let traces = run_clients(&cell, p);
+    stop.store(true, std::sync::atomic::Ordering::SeqCst);
+    if let Some(t) = stall_thread {
+        let _ = t.join();
+    }
+    for m in &cell.mocks {
+        m.ctl.heal();
+    }
     Ok(TxwRun {
         cell,
         traces,
